@@ -695,3 +695,70 @@ def rule_value_identity(db: ProgramDB) -> List[Instance]:
     out.append(inst("VALUE-IDENTITY", HOLDS if hashed_by_id else VIOLATION, h, "HashedValue.__hash__[the identifier]",
                     "the hash is the hash of the identifier" if hashed_by_id else "the hash is not derived from the identifier alone", line=h.lineno))
     return out
+
+
+# ---------------------------------------------------------------------------------- ROW-NOT-RETAINED
+def rule_row_not_retained(db: ProgramDB) -> List[Instance]:
+    """A row is the consumer's from the moment it is yielded: the operators complete rows in place (`first_value.update(sources)`,
+    `left_value.update(sources)`, the descriptor binds the selected variables into it).  So no generator of the engine yields a dict it
+    also keeps - an element or attribute of its own state (a memo of bindings per domain value): what a consumer writes into it
+    during one step of the search would be there again the next time the same object is handed out, and bindings of other
+    variables leak from one assignment into another.  Provenance rule: the yielded expression (through local assignments and
+    loop targets) is not a load from `self.<state>`; what a call returns is the callee's business (the index copies)."""
+    from ..facts import local_defs
+    out = []
+    se = db.cls("SymbolicExpression")
+    n = 0
+    for c in sorted([se] + se.all_subclasses(), key=lambda k: k.qualname):
+        for m in c.methods.values():
+            if m.cls is not c or not m.is_generator:
+                continue
+            defs = local_defs(m)
+
+            def stored_origin(e, depth=0, seen=None) -> Optional[ast.AST]:
+                seen = seen or set()
+                if isinstance(e, tuple):
+                    # a loop target: elements of the iterated collection
+                    if e[0] == "iter":
+                        it = e[1]
+                        while isinstance(it, ast.Call) and isinstance(it.func, ast.Attribute) and it.func.attr in ("values", "items", "keys") and not it.args:
+                            it = it.func.value
+                        return stored_origin(it, depth + 1, seen) if not isinstance(it, ast.Call) else None
+                    if e[0] == "unpack":
+                        return stored_origin(("iter", e[1][1]) if isinstance(e[1], tuple) and e[1][0] == "iter" else e[1], depth + 1, seen)
+                    return None
+                if isinstance(e, ast.Name):
+                    if e.id in seen or depth > 4:
+                        return None
+                    seen = seen | {e.id}
+                    for d in defs.get(e.id, []):
+                        r = stored_origin(d, depth + 1, seen)
+                        if r is not None:
+                            return r
+                    return None
+                if isinstance(e, ast.Subscript):
+                    return stored_origin(e.value, depth, seen) and e
+                if isinstance(e, ast.Attribute):
+                    if isinstance(e.value, ast.Name) and e.value.id == "self":
+                        return e
+                    return None
+                return None
+            for y in own_nodes(m.node):
+                if not (isinstance(y, ast.Yield) and y.value is not None):
+                    continue
+                v = y.value
+                if isinstance(v, (ast.Dict, ast.DictComp, ast.Call, ast.Tuple, ast.Constant)):
+                    continue
+                n += 1
+                o = stored_origin(v)
+                bad = o is not None and isinstance(o, ast.Subscript)
+                out.append(inst("ROW-NOT-RETAINED", VIOLATION if bad else HOLDS, m, f"{m.short}[yield {unparse(v)[:30]}]",
+                                "the yielded row is not an element of the node's own state" if not bad else
+                                f"`yield {unparse(v)}` hands out `{unparse(o)[:60]}`, an object the node keeps: consumers complete rows in place "
+                                f"(`first_value.update(sources)`), so what one step of the search wrote into it - the bindings of OTHER variables - is still in it "
+                                f"when it is handed out again, and overwrites the right bindings (rows with wrong assignments, missing and duplicate rows)",
+                                line=y.lineno))
+    if n < 20:
+        raise AnalysisError(f"only {n} row yields found in the engine's generators")
+    return out
+
